@@ -76,6 +76,23 @@ def replay(case):
         evs.append(fa.result_event(op, A, guard.call(fn, a)))
     for op, fn in UN[:1] + UN[2:3]:
         evs.append(fa.result_event(op, B, guard.call(fn, b)))
+    A0, B0 = A, B
+    if fa.project(a) == A and fa.project(b) == B and case.get("family", "").startswith("random"):
+        # phase 2: after the operations above, change start/final marking of both operands through the public mutators
+        # and combine them again (nothing computed for the old value may survive in the operands)
+        sa = sorted(a.states, key=fa.tag)
+        sb = sorted(b.states, key=fa.tag)
+        if sa and sb:
+            guard.call(a.add_final_state, sa[-1].value)
+            guard.call(b.add_start_state, sb[-1].value)
+            if len(sa) > 1:
+                guard.call(a.remove_final_state, sa[0].value)
+            A, B = fa.project(a), fa.project(b)
+            for op, fn in BIN[4:] + BIN[:1]:
+                evs.append(fa.result_event(op, A, guard.call(fn, a, b), B=B, phase=2))
+            for op, fn in UN[:1] + UN[4:]:
+                evs.append(fa.result_event(op, A, guard.call(fn, a), phase=2))
+                evs.append(fa.result_event(op, B, guard.call(fn, b), phase=2))
     for ev in evs:
         ev["meta"] = meta
     if fa.project(a) != A or fa.project(b) != B:
